@@ -26,6 +26,7 @@ fn main() {
     util::install_panic_hook();
     let (inp, outp) = (args[2].as_str(), args[3].as_str());
     match args[1].as_str() {
+        "log" => util::run_cases(inp, outp, total::run_log),
         "total" => total::parent(inp, outp),
         "total_child" => total::child(inp, outp, args.get(4).and_then(|x| x.parse().ok()).unwrap_or(0)),
         "ffi" => ffi::parent(inp, outp),
